@@ -181,6 +181,19 @@ func (w *World) CheckOutcome() {
 				terms++
 			}
 		}
+		// For a method with a non-streaming response the generated stubs call RecvMsg
+		// exactly once (CloseAndRecv / Invoke): that first call is the completion.
+		if v.spec.Method == "ClientStream" || (v.spec.Method == "Unary" && v.invoke == nil) {
+			for i := range v.all {
+				r := &v.all[i]
+				if r.Side == "client" && r.K == "recv" && r.RetSeq != 0 {
+					if r.Err == "" && wantCode != codes.OK {
+						w.Violate("C02", "error-status-reported-as-success", "rpc %s (%s): the handler returned %v but the caller's (single) RecvMsg returned a response and a nil error", v.id, v.spec.Method, wantCode)
+					}
+					break
+				}
+			}
+		}
 		if term == nil {
 			continue
 		}
